@@ -33,6 +33,17 @@ CHECKS = {
             "sides report the CONNECT stream id as session id; the session is usable.",
             SIM_NOTE + " Expected authority/path use string slicing plus the three documented URL normalisations.",
             "exhaustive enumeration of a bounded scenario grid executed on the real stack under a deterministic simulated environment"),
+    "C03": ("simx", "exploration", "DESIGN.md §6-C03",
+            "(a) through hook H5 the driver's datagram write/read is executed for 10 boundary quarter ids (1/2/4/8-byte encodings up to "
+            "2^60-1) x payload lengths 0..64 and 1199..1201 x 2 contents, every id-encoding length, ids beyond 2^60-1 and the empty "
+            "datagram, and compared byte-for-byte with refcodec; (b) live bursts of 1..8 pairwise distinct datagrams in 4 topologies "
+            "(wt<->wt both ways, raw->wt both roles) x 3 send/receive patterns (receiver waiting / all queued / interleaved) x "
+            "foreign-session datagrams before and after each one x 4 id encodings: every delivered payload must be byte-identical to a "
+            "sent one, delivered at most once, from the own session, and nothing may be lost when the receiver keeps up; (c) size contract: "
+            "the peer advertises max_datagram_frame_size in {absent,0,1,2,8,9,10,11,16,17,18,64,1200,65535,...}; max_datagram_size() must "
+            "not panic or exceed 65535, and send(L) is TooLarge exactly for L > max, for every L in 0..=max+3.",
+            SIM_NOTE + " Only the sender-side API is judged for peer limits below quinn's own overhead.",
+            "exhaustive enumeration of a bounded scenario grid executed on the real stack under a deterministic simulated environment"),
     "C16": ("simx", "exploration", "DESIGN.md §6-C16",
             "A raw quinn peer records every byte the endpoint emits (both roles) over a grid of requests, decisions, header singletons, "
             "stream sets, datagram lengths and CONNECT stream ids (session ids crossing varint lengths) and the independent reference codec "
